@@ -61,12 +61,31 @@ def sum3(a, b, c):
     return a + b + c
 
 
+def rev_1_2(s1, p1, p2, kf, kr):
+    return kf * s1 - kr * p1 * p2
+
+
+def rev_2_2(s1, s2, p1, p2, kf, kr):
+    return kf * s1 * s2 - kr * p1 * p2
+
+
 PROD = {1: prod1, 2: prod2, 3: prod3, 4: prod4, 5: prod5}
 SUM = {1: sum1, 2: sum2, 3: sum3}
+REV1, REV2 = "(FRev 1)", "(FRev 2)"  # reversible mass action: kf * (first m arguments) - kr * (the following ones); last two = kf, kr
 
 
 def fn_of(kind: str, arity: int):
+    if kind in (REV1, REV2):
+        from mxlpy import fns
+
+        return {(REV1, 4): fns.mass_action_1s_1p, (REV1, 5): rev_1_2, (REV2, 5): fns.mass_action_2s_1p, (REV2, 6): rev_2_2}[(kind, arity)]
     return (PROD if kind == "FProd" else SUM)[arity]
+
+
+def rev_split(kind: str, args: list[str]) -> tuple[list[str], list[str], list[str]]:
+    """(substrate arguments, product arguments, [kf, kr]) of a reversible mass-action law."""
+    m = 1 if kind == REV1 else 2
+    return list(args[:m]), list(args[m:-2]), list(args[-2:])
 
 
 def fnid_of(fn) -> str:
@@ -79,6 +98,10 @@ def fnid_of(fn) -> str:
         return "FOneDiv"
     if n == "_neg_one_div":
         return "FNegOneDiv"
+    if n in ("mass_action_1s_1p", "rev_1_2"):
+        return REV1
+    if n in ("mass_action_2s_1p", "rev_2_2"):
+        return REV2
     return "FUnknown_" + n  # not a constructor: the correspondence file fails to compile -> reported
 
 
@@ -141,6 +164,23 @@ _INIT_ISONAME = (
     "            suffix = ''.join(('1' if idx in label_pos else '0' for idx in range(self.label_variables[k])))\n"
     "            variables[f'{k}__{suffix}' if suffix else k] = v"
 )
+# the rate-argument renaming block of _create_isotopomer_reactions (inside the pattern loop), both recognised forms
+_REPL_DICT = (
+    "    replacements = dict(zip(base_substrates, new_substrates, strict=True)) | dict(zip(base_products, new_products, strict=True))\n"
+    "    model.add_reaction(name=new_rate_name, fn=function, stoichiometry=new_stoichiometry, args=[replacements.get(k, k) for k in args])"
+)
+_REPL_POSITIONAL = (
+    "    pools: defaultdict[str, list[str]] = defaultdict(list)\n"
+    "    for base, new in zip(base_substrates + base_products, new_substrates + new_products, strict=True):\n"
+    "        pools[base].append(new)\n"
+    "    last: dict[str, str] = {}\n"
+    "    new_args = []\n"
+    "    for k in args:\n"
+    "        if (pool := pools.get(k)):\n"
+    "            last[k] = pool.pop(0)\n"
+    "        new_args.append(last.get(k, f'{k}__total' if k in label_variables else k))\n"
+    "    model.add_reaction(name=new_rate_name, fn=function, stoichiometry=new_stoichiometry, args=new_args)"
+)
 _HELPER_INVERSE = (
     "res = ['EXT'] * len(substrates)\n"
     "for substrate, pos in zip(substrates, labelmap, strict=True):\n"
@@ -156,7 +196,7 @@ def helper_hashes() -> dict[str, dict[str, str]]:
     ibm = _body_src(_fn(iso, "build_model"))
     out["iso"]["build_model<INIT>"] = _h(ibm.replace(_INIT_RAW, "<INIT>").replace(_INIT_ISONAME, "<INIT>"))
     cre = _body_src(_fn(iso, "_create_isotopomer_reactions"))
-    out["iso"]["_create_isotopomer_reactions"] = _h(cre)
+    out["iso"]["_create_isotopomer_reactions<REPL>"] = _h(cre.replace(_REPL_DICT, "<REPL>").replace(_REPL_POSITIONAL, "<REPL>"))
     bm = _body_src(_fn(lin, "build_model"))
     out["lin"]["build_model<DIR>"] = _h(bm.replace(_DIR_INVERSE, "<DIR>").replace(_DIR_DOCUMENTED, "<DIR>"))
     return out
@@ -173,7 +213,7 @@ PINNED = {
         "_total_concentration": "5f12d60713e71e1a",
         "get_isotopomers": "35a1af943c3606b5",
         "build_model<INIT>": "b1bb8b8cce8ac281",
-        "_create_isotopomer_reactions": "2a9f89a608a29c3b",
+        "_create_isotopomer_reactions<REPL>": "6ce78f939f0c319f",
     },
     "lin": {
         "_generate_isotope_labels": "c8e9ade93b2380fc",
@@ -225,11 +265,10 @@ def extract_facts() -> dict[str, str]:
                 if node.body and isinstance(node.body[-1], ast.Raise) and ast.unparse(node.body[-1].exc).startswith("ValueError"):
                     facts["short"] = "ShortLt0"
         src = _body_src(cre)
-        if (
-            "replacements = dict(zip(base_substrates, new_substrates, strict=True)) | dict(zip(base_products, new_products, strict=True))" in src
-            and "args=[replacements.get(k, k) for k in args]" in src
-        ):
+        if src.count(_REPL_DICT) == 1 and src.endswith(_REPL_DICT) and "pools" not in src:
             facts["repl"] = "ReplDict"
+        elif src.count(_REPL_POSITIONAL) == 1 and src.endswith(_REPL_POSITIONAL) and "replacements" not in src:
+            facts["repl"] = "ReplPositional"
     hs = helper_hashes()
     if hs["iso"] == PINNED["iso"]:
         facts["iso_helpers"] = "true"
@@ -373,8 +412,10 @@ def gen_base(rng, *, steady: bool = False) -> dict:
     nrx = rng.randint(1, 4)
     for j in range(nrx):
         name = f"v{40 + j}"
-        kind = rng.choice(["in", "out", "uni", "uni", "bi", "split", "homo", "uni2", "weird", "tri", "trisplit", "modifier", "modifier"])
+        kind = rng.choice(["in", "out", "uni", "uni", "bi", "split", "homo", "uni2", "weird", "tri", "trisplit", "modifier", "modifier",
+                           "rev11", "rev11", "rev21", "rev12", "rev22", "revhomo"])
         k = rng.choice(pnames + [d[0] for d in dpars])
+        k2 = rng.choice(pnames)  # reverse rate constant of the reversible laws
         if kind == "in":
             x = rng.choice(cpds)
             rxns.append((name, "FProd", [k], {x: 1}))
@@ -407,6 +448,25 @@ def gen_base(rng, *, steady: bool = False) -> dict:
         elif kind == "homo":
             x, y = rng.sample(cpds, 2)
             rxns.append((name, "FProd", [x, x, k], {x: -2, y: 1}))
+        # reversible mass action written as ONE reaction: the rate takes the products as arguments (kf*S.. - kr*P..)
+        elif kind == "rev11":
+            x, y = rng.sample(cpds, 2)
+            rxns.append((name, REV1, [x, y, k, k2], {x: -1, y: 1} if rng.random() < 0.7 else {y: 1, x: -1}))
+        elif kind == "rev21" and ncpd >= 3:
+            x, y, z = rng.sample(cpds, 3)
+            rxns.append((name, REV2, [x, y, z, k, k2], {x: -1, y: -1, z: 1}))
+        elif kind == "rev12" and ncpd >= 3:
+            x, y, z = rng.sample(cpds, 3)
+            rxns.append((name, REV1, [x, y, z, k, k2], {x: -1, y: 1, z: 1}))
+        elif kind == "rev22" and ncpd >= 4:
+            x, y, z, w = rng.sample(cpds, 4)
+            rxns.append((name, REV2, [x, y, z, w, k, k2], {x: -1, y: -1, z: 1, w: 1}))
+        elif kind == "revhomo":  # 2X <-> Y (kf*X*X - kr*Y) or X <-> 2Y (kf*X - kr*Y*Y)
+            x, y = rng.sample(cpds, 2)
+            if rng.random() < 0.5:
+                rxns.append((name, REV2, [x, x, y, k, k2], {x: -2, y: 1}))
+            else:
+                rxns.append((name, REV1, [x, y, y, k, k2], {x: -1, y: 2}))
         else:  # non-mass-action: additive rate, maybe a derived variable or a product as argument
             x, y = rng.sample(cpds, 2)
             extra = rng.choice([d[0] for d in dvars] + pnames + [y])
